@@ -137,6 +137,28 @@ class BundleFlattener(ElabPass):
         """Flatten Module `module`s Bundles, replacing them with newly-created Signals.
         Reconnect the flattened Signals to any Instances connected to said Bundles."""
 
+        # The `BundleRef`s which the connections of this Module actually use: directly, or within slices,
+        # concatenations and anonymous bundles. Bundle instances create and keep a `BundleRef` for every member
+        # ever *looked at*, e.g. a mistyped `b.typo` since corrected; only those in use need (and can) be resolved.
+        self.live_refs = list()
+
+        def collect_live(conn) -> None:
+            if isinstance(conn, BundleRef):
+                self.live_refs.append(conn)
+                collect_live(conn.parent)
+            elif isinstance(conn, Slice):
+                collect_live(conn.parent)
+            elif isinstance(conn, Concat):
+                for part in conn.parts:
+                    collect_live(part)
+            elif isinstance(conn, AnonymousBundle):
+                for attr in conn._namespace.values():
+                    collect_live(attr)
+
+        for inst in instances_and_arrays(module):
+            for conn in inst.conns.values():
+                collect_live(conn)
+
         # Cache the state of the Module's IOs before flattening
         module._pre_flattening_io = copy.copy(io(module))
 
@@ -204,6 +226,8 @@ class BundleFlattener(ElabPass):
     def resolve_bundlerefs(self, hasrefs: Union[BundleInstance, BundleRef]) -> None:
         """Resolve all BundleRefs that `hasrefs` has given out."""
         for bref in hasrefs.refs_to_me.values():
+            if not any(bref is live for live in self.live_refs):
+                continue  # Not in use by any connection
             # Recursively get references it has handed out
             self.resolve_bundlerefs(bref)
             # And resolve `bref` itself
